@@ -33,7 +33,7 @@ kernel and the schedulers are shared mechanisms; C08 is the umbrella over all el
 `tools/seedtest.py --dir /verif/seeded --all-props` on scratch worktrees (never on `/repo`) and
 `tools/matrix_section.py`. `r2-` ids are round 2. This table: %d seeds at /repo %s (all patches re-created on the
 repaired tree after each batch of `fix:` commits and re-validated there; three seeds were dropped as obsolete because a
-repair removed the very construct they broke: r2-C13-m1 after e924495, r2-C09-m3 after d7f640f, r2-C17-m3 (`cwnd = min(cwnd, ssthresh)` in `dupack_over`, which differed only after a timeout inside fast recovery) after b6787d2; `r3-` .. `r7-` ids are rounds 3 to 7); %d caught by the
+repair removed the very construct they broke: r2-C13-m1 after e924495, r2-C09-m3 after d7f640f, r2-C17-m3 (`cwnd = min(cwnd, ssthresh)` in `dupack_over`, which differed only after a timeout inside fast recovery) after b6787d2; `r3-` .. `r8-` ids are rounds 3 to 8); %d caught by the
 check of their own property, %d not (the two float re-associations of round 7, marked **known miss**: over the reals they are the same expression; section 0.5). The 480 stored refactorings and backwards-compatible extensions (`tools/refactest.py`): 477 silent, three recorded limitations (G08-u2, G09-v3, G10-x5; section 0.7).
 
 | seed | breaks | own check | also flagged by | files | change |
